@@ -137,6 +137,11 @@ def run_hist(hist, H, recvkind, salt):
         childok = all(H.is_tag_child(p) for p in supplied)
         if act in ("Repeat", "IMul") and len(x) * max(op["n"], 1) > 200:
             op = dict(op, n=1)
+        if holder is None and (salt + step) % 5 == 0 and len(lent) < 40:
+            # the list is replaced by its tagify() / copy() result and the history goes on with that one: the list that is
+            # left behind keeps its own children
+            lent.append((x, proj(x, H, cls)))
+            x = x.tagify() if (salt + step) % 10 == 0 and all(not isinstance(e_, cls[1]) for e_ in x) else x.copy()
         old = x
         exc = "none"
         res_is_list = True
